@@ -37,7 +37,7 @@ def clean_layer(a):
 
 def spec_oracle(C):
     def oracle(cases, mobs, iobs):
-        lines = [c['line'].replace(' value ', ' spec ', 1) for c in cases if c.get('clean')]
+        lines = [c.get('spec_line') or c['line'].replace(' value ', ' spec ', 1) for c in cases if c.get('clean')]
         sobs = C.run_sharded(C.DRIVER, lines)
         fails = []
         for c in cases:
